@@ -11,17 +11,19 @@ PROPERTY = "C20"
 TRACE = "T_Raster"
 ENUM = {
     "quick":    [dict(module="MC_Raster", cfg="MC_Raster_quick.cfg", workers=8)],
-    "thorough": [dict(module="MC_Raster", cfg="MC_Raster_thorough.cfg", workers=16)],
+    "thorough": [dict(module="MC_Raster", cfg="MC_Raster_thorough.cfg", workers=16, coverage=True)],
 }
 POOL = 12
 CHUNK = 1000
 TIME_UNITS = [1.0, 0.5, 0.125]     # seconds per time tick (chosen per case from its sizes)
-FREQ_UNIT = 250.0                  # Hz per frequency tick; MAX_FREQUENCY = 20000 ticks (Raster!FMAXT)
+FREQ_UNIT = 250.0                  # Hz per frequency tick when tpl.fu = 250; MAX_FREQUENCY = 20000 ticks (Raster!FMAXT)
 OFF = -(2 ** 30)                   # sentinel: value not an integer / coordinate not on the lattice
 
 RULE = ("every call of the TLA+ enumeration (template sizes x both dimension orders x three spacings; boxes on the ticks "
         "around the template, time intervals, time stamps, catalogue geometries of all nine kinds at two scales, lists of two "
-        "geometries, value lists of the wrong length; fill, dtype, scalar/list values varied) plus random larger templates; "
+        "geometries, value lists of the wrong length; fill, dtype, scalar/list values varied; templates whose time and frequency "
+        "ticks are the same numbers (1 s, 1 Hz) with boxes and lists whose time coordinates equal frequency coordinates of another "
+        "bin) plus random larger templates; "
         "each executed three times (contents A, contents B, all_touched); non-trivial = the call is valid and marks at least one cell")
 TRUSTED_BASE = ["checks/c20.py + vt/geom.py (build template with the library's own range constructors and the geometries on "
                 "dyadic units, call rasterize, read dims/coordinates/cells back as integers)"]
@@ -33,15 +35,17 @@ ASSUMPTIONS = ["dyadic units: coordinates, bin lookups and comparisons of the im
                "containing it): both readings are accepted"]
 
 
-def _unit(tp):
-    return TIME_UNITS[(tp["T"] + 2 * tp["F"] + tp["ts"]) % 3]
+def _units(tp):
+    """(seconds per time tick, Hz per frequency tick).  tpl.fu = 1: one tick is the same number (1 s, 1 Hz) on both axes."""
+    if tp.get("fu", 250) == 1:
+        return 1.0, 1.0
+    return TIME_UNITS[(tp["T"] + 2 * tp["F"] + tp["ts"]) % 3], FREQ_UNIT
 
 
-def _template(tp, tu, variant):
+def _template(tp, tu, fu, variant):
     T, F = tp["T"], tp["F"]
     tc = arrays.create_time_range(start_time=tp["t0"] * tu, end_time=(tp["t0"] + T * tp["ts"]) * tu, step=tp["ts"] * tu)
-    fc = arrays.create_frequency_range(low_freq=tp["f0"] * FREQ_UNIT, high_freq=(tp["f0"] + F * tp["fs"]) * FREQ_UNIT,
-                                       step=tp["fs"] * FREQ_UNIT)
+    fc = arrays.create_frequency_range(low_freq=tp["f0"] * fu, high_freq=(tp["f0"] + F * tp["fs"]) * fu, step=tp["fs"] * fu)
     if len(tc) != T or len(fc) != F:
         raise RuntimeError(f"template axes have {len(tc)}x{len(fc)} points, wanted {T}x{F}")
     if variant == "A":
@@ -73,7 +77,7 @@ def _coords(r, name, unit):
     return out
 
 
-def _run(geoms, arr, kw, tu):
+def _run(geoms, arr, kw, tu, fu):
     try:
         r = rasterize(geoms, arr, **kw)
     except Exception as ex:                       # an observation, judged by the spec
@@ -82,19 +86,19 @@ def _run(geoms, arr, kw, tu):
     cells = []
     if sorted(dims) == ["frequency", "time"]:
         cells = [[_int(v) for v in row] for row in r.transpose("time", "frequency").values]
-    return {"raised": "", "dims": dims, "tc": _coords(r, "time", tu), "fc": _coords(r, "frequency", FREQ_UNIT), "cells": cells}
+    return {"raised": "", "dims": dims, "tc": _coords(r, "time", tu), "fc": _coords(r, "frequency", fu), "cells": cells}
 
 
 def execute(case):
     tp = case["tpl"]
-    tu = _unit(tp)
-    geoms = [build(g, tu, FREQ_UNIT) for g in case["geoms"]]
+    tu, fu = _units(tp)
+    geoms = [build(g, tu, fu) for g in case["geoms"]]
     values = case["values"][0] if case["scalar"] else list(case["values"])
     kw = dict(values=values, fill=case["fill"], dtype=np.dtype(case["dt"]))
-    a, b = _template(tp, tu, "A"), _template(tp, tu, "B")
-    return {"r1": _run(geoms, a, dict(kw), tu),
-            "r2": _run(geoms, b, dict(kw), tu),
-            "rt": _run(geoms, a, dict(kw, all_touched=True), tu)}
+    a, b = _template(tp, tu, fu, "A"), _template(tp, tu, fu, "B")
+    return {"r1": _run(geoms, a, dict(kw), tu, fu),
+            "r2": _run(geoms, b, dict(kw), tu, fu),
+            "rt": _run(geoms, a, dict(kw, all_touched=True), tu, fu)}
 
 
 def _rand_geom(rng, tp):
@@ -120,7 +124,8 @@ def random_cases(rng, tier):
     n = 250 if tier == "quick" else 4000
     for _ in range(n):
         tp = {"T": rng.randint(1, 8), "F": rng.randint(1, 8), "order": rng.choice(["ft", "tf"]),
-              "t0": rng.randint(0, 6), "ts": rng.randint(1, 5), "f0": rng.randint(0, 6), "fs": rng.randint(1, 5)}
+              "t0": rng.randint(0, 6), "ts": rng.randint(1, 5), "f0": rng.randint(0, 6), "fs": rng.randint(1, 5),
+              "fu": rng.choice([250, 1])}       # fu = 1: time and frequency ticks are the same numbers
         ng = rng.choice([1, 1, 2, 3])
         geoms = [_rand_geom(rng, tp) for _ in range(ng)]
         scalar = rng.random() < 0.2
